@@ -996,23 +996,76 @@ Proof.
   apply Permutation_concat. apply Permutation_map. exact P.
 Qed.
 
-(** Load / CompleteFileIterator after SortBatches: all the records in input order, as one batch 0 *)
-Lemma completefile_spec (bs : list (list A)) (h : hist) : Permutation h (numbered_from 0 bs) ->
-  load (sortb h) = concat bs /\
-  completefile (sortb h) = match concat bs with [] => [] | l => [(0, l)] end.
+(** Load / CompleteFileIterator: the stable sort by batch number of ANY arrival order of a well-numbered
+    stream is the stream in numbering order, so all the records come in input order, as one batch 0 *)
+Fixpoint ssorted (l : hist) : Prop :=
+  match l with [] => True | a :: t => Forall (fun y : batch => fst a < fst y) t /\ ssorted t end.
+Lemma ssorted_app_inv (l1 : hist) b l2 : ssorted (l1 ++ b :: l2) ->
+  Forall (fun x : batch => fst x < fst b) l1 /\ Forall (fun y : batch => fst b < fst y) l2 /\ ssorted (l1 ++ l2).
 Proof.
-  intros P. unfold completefile, load. rewrite (sortb_spec A bs h P), flatten_numbered. split; reflexivity.
+  induction l1 as [|x l1 IH]; simpl; intros [F S].
+  - split; [constructor|]. split; assumption.
+  - destruct (IH S) as (A1 & A2 & A3). apply Forall_app in F. destruct F as [F1 F2].
+    inversion F2 as [|? ? Hb F2']; subst. split; [constructor; assumption|]. split; [exact A2|].
+    split; [apply Forall_app; split; assumption|exact A3].
 Qed.
+Lemma ins_middle (b : batch) (l1 l2 : hist) :
+  Forall (fun x : batch => fst x < fst b) l1 -> Forall (fun y : batch => fst b < fst y) l2 ->
+  ins_batch b (l1 ++ l2) = l1 ++ b :: l2.
+Proof.
+  intros F1 F2. induction l1 as [|x l1 IH]; simpl.
+  - destruct l2 as [|y l2]; [reflexivity|]. inversion F2; subst. simpl.
+    destruct (Nat.leb_spec (fst b) (fst y)); [reflexivity|lia].
+  - inversion F1; subst. destruct (Nat.leb_spec (fst b) (fst x)); [lia|]. rewrite IH by assumption. reflexivity.
+Qed.
+Lemma stable_sort_unique (h : hist) : forall l, ssorted l -> Permutation h l -> stable_sort_batches h = l.
+Proof.
+  induction h as [|b h IH]; intros l S P.
+  - apply Permutation_nil in P. subst. reflexivity.
+  - assert (I : In b l) by (eapply Permutation_in; [exact P|left; reflexivity]).
+    destruct (in_split _ _ I) as (l1 & l2 & E). subst l.
+    destruct (ssorted_app_inv l1 b l2 S) as (F1 & F2 & S').
+    apply Permutation_cons_app_inv in P. simpl. rewrite (IH (l1 ++ l2) S' P). apply ins_middle; assumption.
+Qed.
+Lemma numbered_from_ssorted k (bs : list (list A)) : ssorted (numbered_from k bs).
+Proof.
+  revert k. induction bs as [|b bs IH]; intros k; [exact I|]. rewrite numbered_from_cons. simpl. split; [|apply IH].
+  apply Forall_forall. intros y Hy. assert (J : In (fst y) (map fst (numbered_from (S k) bs))) by (apply in_map; exact Hy).
+  rewrite numbered_from_fst in J. apply in_seq in J. lia.
+Qed.
+Lemma stable_sort_spec (bs : list (list A)) (h : hist) : Permutation h (numbered_from 0 bs) ->
+  stable_sort_batches h = numbered_from 0 bs.
+Proof. intros P. apply stable_sort_unique; [apply numbered_from_ssorted|exact P]. Qed.
+Lemma completefile_spec (bs : list (list A)) (h : hist) : Permutation h (numbered_from 0 bs) ->
+  load h = concat bs /\
+  completefile h = match concat bs with [] => [] | l => [(0, l)] end /\
+  load (sortb h) = concat bs.
+Proof.
+  intros P. unfold completefile, load. rewrite (stable_sort_spec bs h P), flatten_numbered.
+  split; [reflexivity|]. split; [reflexivity|]. rewrite (sortb_spec A bs h P).
+  rewrite (stable_sort_spec bs _ (Permutation_refl _)). apply flatten_numbered.
+Qed.
+(** before the fix of Load: an out-of-order arrival reordered the records *)
+Lemma load_v0_refuted : exists (bs : list (list nat)) (h : list (nat * list nat)),
+  Permutation h (numbered_from 0 bs) /\ load_v0 h <> concat bs.
+Proof. exists [[1]; [2]], [(1, [2]); (0, [1])]. split; [apply perm_swap|]. vm_compute. discriminate. Qed.
 
-(** conditional worker pool: the worker pool theorem for the worker "f where c holds, nothing elsewhere" *)
+(** conditional worker pool: the worker pool theorem for the worker "f where c holds, the record itself elsewhere" *)
 Lemma cond_worker_sorted (c : A -> bool) (f : A -> list A) (bs : list (list A)) (h e : hist) :
   Permutation h (numbered_from 0 bs) -> Permutation e (wmap (cond_worker c f) h) ->
   sortb e = numbered_from 0 (map (flat_map (cond_worker c f)) bs) /\
-  flatten (sortb e) = flat_map f (filter c (concat bs)).
+  flatten (sortb e) = flat_map (cond_worker c f) (concat bs) /\
+  (forall x, c x = true -> cond_worker c f x = f x) /\ (forall x, c x = false -> cond_worker c f x = [x]).
 Proof.
   intros P Q. destruct (worker_pool_sorted A (cond_worker c f) bs h e P Q) as [S F]. split; [exact S|].
-  rewrite F. clear. induction (concat bs) as [|x l IH]; simpl; [reflexivity|]. unfold cond_worker at 1.
-  destruct (c x); simpl; rewrite IH; reflexivity.
+  split; [exact F|]. split; intros x Hx; unfold cond_worker; rewrite Hx; reflexivity.
+Qed.
+(** nothing is lost by a conditional worker whose worker keeps its record: every unselected record is delivered *)
+Lemma cond_worker_keeps_unselected (c : A -> bool) (f : A -> list A) (l : list A) :
+  incl (filter (fun x => negb (c x)) l) (flat_map (cond_worker c f) l).
+Proof.
+  intros x I. apply filter_In in I. destruct I as [I N]. apply in_flat_map. exists x. split; [exact I|].
+  unfold cond_worker. destruct (c x); [discriminate|left; reflexivity].
 Qed.
 
 (** paired streams *)
